@@ -5,6 +5,7 @@ signatures (stand-in tool) vs Model.Response, plus the documented rule itself
 as an implementation-level oracle."""
 import itertools
 
+import c02adv
 import c02x
 import env
 import pipeline
@@ -13,11 +14,12 @@ from core import Exn
 from env import NOW
 
 CLAIM = {
-    "text": "Coq theorems in Props/C02.v. C02_accept_iff, proved for EVERY configuration, clock, response content and signature state of the pipeline model (not by enumerating the table): is_ok(parse_response c r) = otherwise_valid c r && documented c r, where documented = every present signature verifies && (want_response_signed -> response signed) && (want_assertions_signed -> every assertion read is signed) && (want_assertions_or_response_signed -> response signed || every assertion signed), and otherwise_valid is the pipeline's own non-signature part on the signature-stripped document; corollaries: a present invalid signature is never ignored, a missing required signature is never compensated. The proof goes through the force-require / catch / retry structure of Entity._parse_response including the state the failed first attempt leaves behind. C02_options_from_sp_section / C02_config_class_irrelevant / C02_other_sections_irrelevant / C02_client_accept_iff: the three options a client works with are the explicit values of the sp section (booleans or the strings true/false), else the defaults (true, false, false), for EVERY configuration class (def_context sp, empty, idp ...) and whatever other roles the configuration serves, and the iff holds for the client built from it. C02_history (+ _accept_iff, _state_irrelevant, _invalid_never_accepted, _no_compensation), by induction over operation sequences of the state-passing client model (SetOpts / Parse; state = options, cached subjects, identifiers and signature values seen): the verdict of a step depends only on that step's message and the options in force, for every prefix and client state - so a tampered copy reusing the ID and SignatureValue of an accepted message is refused exactly as on a fresh client. Tie: the full 8 x 4 x 2 x corruption table (plus multi-assertion and default-option variants); the 27 (absent/False/True)^3 option sections x 4 configuration layouts (SPConfig / generic Config, sp only / sp+idp) + string values + config_factory + IdPConfig, each x 4 signing states x {plain, encrypted}; and histories on long-lived clients (one per option setting and class; one client whose options change between steps; eight clients on ONE SecurityContext) walking every tampered / re-digested / same-ID message kind directly before and after its genuine twin - implementation vs model at every step, every run.",
-    "note": "Trusted: Coq kernel + vm_compute; pipeline and client models tied to the code by the tables and histories; 'verifies' is the outcome of _check_signature with the stand-in xmlsec1 (real RSA and digests; real xmlsec1 is not installed) - what a positive verdict covers is C01's subject; the harness derives each message's signature verdicts from what it signed and edited; <Advice> assertions are outside the model; histories are sampled (seeded), the tables are exhaustive.",
+    "text": "Coq theorems in Props/C02.v. C02_accept_iff, proved for EVERY configuration, clock, response content and signature state of the pipeline model (not by enumerating the table): is_ok(parse_response c r) = otherwise_valid c r && documented c r, where documented = every present signature verifies && (want_response_signed -> response signed) && (want_assertions_signed -> every assertion read is signed) && (want_assertions_or_response_signed -> response signed || every assertion signed), and otherwise_valid is the pipeline's own non-signature part on the signature-stripped document; corollaries: a present invalid signature is never ignored, a missing required signature is never compensated. The proof goes through the force-require / catch / retry structure of Entity._parse_response including the state the failed first attempt leaves behind. C02_options_from_sp_section / C02_config_class_irrelevant / C02_other_sections_irrelevant / C02_client_accept_iff: the three options a client works with are the explicit values of the sp section (booleans or the strings true/false), else the defaults (true, false, false), for EVERY configuration class (def_context sp, empty, idp ...) and whatever other roles the configuration serves, and the iff holds for the client built from it. C02_history (+ _accept_iff, _state_irrelevant, _invalid_never_accepted, _no_compensation), by induction over operation sequences of the state-passing client model (SetOpts / Parse; state = options, cached subjects, identifiers and signature values seen): the verdict of a step depends only on that step's message and the options in force, for every prefix and client state - so a tampered copy reusing the ID and SignatureValue of an accepted message is refused exactly as on a fresh client. Tie: the full 8 x 4 x 2 x corruption table (plus multi-assertion and default-option variants); the 27 (absent/False/True)^3 option sections x 4 configuration layouts (SPConfig / generic Config, sp only / sp+idp) + string values + config_factory + IdPConfig, each x 4 signing states x {plain, encrypted}; and histories on long-lived clients (one per option setting and class; one client whose options change between steps; eight clients on ONE SecurityContext) walking every tampered / re-digested / same-ID message kind directly before and after its genuine twin - implementation vs model at every step, every run. ENCRYPTED ADVICE (Model/AdviceSig.v over C17's tree model Model.Encrypt.parse_response_t of parse_assertion with both decrypt loops and the advice pass): C02_advice_stage_invalid_never_ignored / C02_advice_stage_bad_refused - for every tree, key set, tool policy, fault schedule, requirement flag and retry state the assertion stage succeeds only if the text was decrypted and no assertion found inside an EncryptedAssertion of an Advice carries a signature that does not verify; C02_invalid_never_ignored_advice - an accepted response was accepted by an attempt (document as received, or what the failed first attempt left) for which that holds; C02_advice_table - the iff evaluated on 8 settings x response sig x assertion sig x advice sig x plain/encrypted x one/two advice EncryptedAssertions. Tie: sp_advice_signature_table - 8 long-lived clients x {plain, encrypted} main assertion x response/assertion sig {none, valid, corrupt} x advice assertion {unsigned, valid, corrupt, wrong key, valid / wrong key without its own Issuer} + two-advice shapes, each bad message followed by its genuine twin, real decryption and verification vs the model, oracle = documented rule and every advice signature present verifies.",
+    "note": "Trusted: Coq kernel + vm_compute; pipeline and client models tied to the code by the tables and histories; 'verifies' is the outcome of _check_signature with the stand-in xmlsec1 (real RSA and digests; real xmlsec1 is not installed) - what a positive verdict covers is C01's subject; the harness derives each message's signature verdicts from what it signed and edited; advice assertions that are not the content of an EncryptedAssertion are outside (their own signature is never looked at by the code; noted under C17); histories are sampled (seeded), the tables are exhaustive.",
     "technique": "machine-checked proof (Coq: case analysis over the retry structure + state-insensitivity lemmas; induction over operation sequences; configuration store lemmas) + exhaustive-table and history correspondence on long-lived objects + oracle",
 }
-TRUSTED = ["modelled: Entity._parse_response retry structure, correctly_signed_response, AuthnResponse._assertion signature branch, decrypt_assertions signature check (Model/Response.v)",
+TRUSTED = ["modelled (shared with C17, Model/Encrypt.v): parse_assertion on document trees incl. the advice pass decrypt_assertions(advice.encrypted_assertion, decr_text, issuer); Model/AdviceSig.v adds definitions only",
+           "modelled: Entity._parse_response retry structure, correctly_signed_response, AuthnResponse._assertion signature branch, decrypt_assertions signature check (Model/Response.v)",
            "modelled: Config.setattr/getattr/load_special/load, Base.__init__ option resolution, the client as a SetOpts/Parse state machine (Model/Client.v); the three option names are arguments of the sp section (config.SP_ARGS - checked every run)",
            "stand-in xmlsec1 signs and verifies (harness/tools/xmlsec_core.py)"]
 ASSUMPTIONS = ["signature verdicts are inputs of the model (Some (Ok tt) / Some (Err SignatureError) / None); the harness derives them from what it signed, corrupted, edited after signing or spliced in from another message",
@@ -26,7 +28,7 @@ RULE = ("cells = 8 option settings (+ options left at their defaults) x response
         "x {plain, encrypted, encrypted-unopenable, two encrypted} x k identities; configuration table = {SPConfig, Config} x {sp, sp+idp} x {absent, False, True}^3 "
         "(+ true/false strings, config_factory, IdPConfig) x 4 signing states x {plain, encrypted} x {genuine, one non-genuine kind}; histories = per (class, option setting) "
         "client: every group's G,v,G,v,... over all kinds {tamper-nameid, tamper-attr, redigest, same-id-unsigned, same-id-resigned, corrupt-R/A, wrongkey-R/A, fresh-id}; "
-        "mixed-option walks on one client and on eight clients sharing one SecurityContext; every step is non-trivial (distinct session, position, message, options)")
+        "mixed-option walks on one client and on eight clients sharing one SecurityContext; advice table = 8 settings x {plain, encrypted} x rsig x asig x 6 advice kinds + two-advice shapes; every step is non-trivial (distinct session, position, message, options)")
 
 SIGS = [None, "valid", "corrupt", "wrongkey"]
 
@@ -121,7 +123,9 @@ def run(ctx):
             ctx.nontriv(("defaults", rsig, asig))
         config_classes(ctx)
         histories(ctx)
+        adv_cases = c02adv.table(ctx)
     ctx.exhaustive = True
+    ctx.correspond("sp_advice_signature_table", c02adv.IMPORTS, c02adv.MODEL, c02adv.CTYPE, adv_cases, shard=100)
     ctx.correspond("sp_pipeline_signature_table", pipeline.IMPORTS, pipeline.MODEL_ACCEPT, pipeline.CTYPE, cases, shard=150)
     for unit, per_case in (("client_configuration_table", 12), ("client_histories", 9)):
         ctx.correspond(unit, HIMPORTS, HMODEL, HCTYPE, _bundles(ctx, unit, per_case), shard=1)
@@ -281,6 +285,8 @@ def replay(ctx, payload):
     print("replay cell:", cell)
     if not isinstance(cell, dict) or "shape" not in cell:
         return 0
+    if "advice" in cell:
+        return c02adv.replay(cell)
     a = A(sig=cell["asig"])
     spec = {"plain": lambda: R(sig=cell["rsig"], assertions=[a]),
             "encrypted": lambda: R(sig=cell["rsig"], assertions=[], encrypted=[a]),
